@@ -152,6 +152,12 @@ func c01Run(c *mon.Ctx, unit int) {
 					c.Violate("check", c01Case{Schema: text, OptKeys: opt}, "no panic", built.check.String(), "Check panicked on a rule-free schema")
 				}
 				c.Sample("schema rejected by Check", map[string]any{"schema": text, "error": built.check.String()})
+				if built.check.Panic == "" {
+					// the generator writes nothing but example values, optional / nullable marks
+					// and notes: every such schema is legal, and a refusal would hide all the
+					// verdicts below
+					c.Violate("legal", c01Case{Schema: text, OptKeys: opt}, "accept", built.check.String(), "Check refuses a schema of the rule-free fragment")
+				}
 				continue
 			}
 			c.Distinct(fmt.Sprint(text, opt))
@@ -454,6 +460,9 @@ func c01Exhaustive(c *mon.Ctx, part int) {
 			if !built.ok {
 				c.Count("small schema rejected by Check (skipped)", 1)
 				c.Sample("small schema rejected by Check", map[string]any{"schema": text, "error": built.check.String()})
+				if built.check.Panic == "" {
+					c.Violate("legal", c01Case{Schema: text, OptKeys: opt}, "accept", built.check.String(), "Check refuses a schema of the rule-free fragment (small-scope exhaustive)")
+				}
 				continue
 			}
 			c.DistinctByConstruction(1)
@@ -503,6 +512,11 @@ func init() {
 		Run: c01Run,
 		Replay: map[string]func(json.RawMessage) string{
 			"validate": c01ReplayValidate,
+			"legal": func(raw json.RawMessage) string {
+				var cs c01Case
+				json.Unmarshal(raw, &cs)
+				return lib.Check(lib.Spec{Text: cs.Schema, OptKeys: cs.OptKeys}).Verdict()
+			},
 			"spelling": func(raw json.RawMessage) string {
 				var cs c01Case
 				if err := json.Unmarshal(raw, &cs); err != nil {
